@@ -66,7 +66,7 @@ PROPS = {
     },
     "C02": {
         "level": "fault_enumeration",
-        "groups": [g("main", "c02", q=16, t=32, run="^Test(Regress|Prop)$", gomaxprocs=[4, 2, 4, 16])],
+        "groups": [g("main", "c02", q=16, t=32, run="^Test(Regress|Prop|CloseOutage)$", gomaxprocs=[4, 2, 4, 16])],
         "parallel": 16,
         "timeout": {"quick": 900, "thorough": 3600},
         "rule": ("generated: one reliable upstream (both codecs, every flush policy, default or payload-retaining sent storage), 1-3 concurrent writer "
